@@ -1,7 +1,8 @@
 (* Props/C18.v — the property theorems for C18 (numbers survive conversion between text and arrays).
    Only statements, `exact <lemma>` and Print Assumptions live here. *)
-From Coq Require Import ZArith List Bool String.
-From BNP Require Import Base.Prims Model.C18 Proofs.C18_power Proofs.C18_int Proofs.C18_lists Proofs.C18_float Gen.C18 Bridge.C18.
+From Coq Require Import ZArith List Bool String Lia.
+From BNP Require Import Base.Prims Model.C18 Corr.C18 Proofs.C18_power Proofs.C18_int Proofs.C18_lists Proofs.C18_float
+  Proofs.C18_matrix Proofs.C18_double Proofs.C18_link Gen.C18 Bridge.C18.
 Import ListNotations.
 Open Scope Z_scope.
 
@@ -148,6 +149,116 @@ Proof.
 Qed.
 Print Assumptions C18_float_pinned_plus_refuted.
 
+(* T3b, full: the list column parser as it is in /repo now (rows regrouped by non-empty pieces) returns exactly the
+   rows of values for EVERY column of lists of valid integer texts — empty lists anywhere included. *)
+Theorem C18_lists_split :
+  forall tss vss,
+    Forall2 (Forall2 (fun t v => text_value t = Some v /\ - 2 ^ 63 <= v < 2 ^ 63)) tss vss ->
+    parse_split_ints 44 (map (intercalate [44]) tss) = Some vss.
+Proof. exact parse_split_ints_fixed_exact. Qed.
+Print Assumptions C18_lists_split.
+
+(* The digit matrix at index level (move_intervals_to_digit_array: window ends - max_chars, NumPy wrap-around for
+   negative indices, fill cells): for every buffer and every list of fields inside it, each row is the field
+   left-padded with the fill value to the widest field — also for a field that ends closer to the buffer start than
+   the widest field is long; a row never depends on the other rows except through the common width. *)
+Theorem C18_digit_matrix :
+  forall data ivs fill, Forall (iv_ok data) ivs ->
+    digit_matrix data ivs fill
+    = map (fun t => repeat fill (Z.to_nat (max_len (fields_of data ivs) - len t)) ++ t) (fields_of data ivs).
+Proof. exact digit_matrix_spec. Qed.
+Print Assumptions C18_digit_matrix.
+(* ... hence a sign-free integer column anywhere in a buffer parses exactly *)
+Theorem C18_int_column_buffer :
+  forall data ivs vs, Forall (iv_ok data) ivs ->
+    Forall2 (fun iv v => digits_value (slice (fst iv) (snd iv) data) = Some v /\ - 2 ^ 63 <= v < 2 ^ 63) ivs vs ->
+    str_to_int_buffer data ivs = Some vs.
+Proof. exact str_to_int_buffer_exact. Qed.
+Print Assumptions C18_int_column_buffer.
+
+(* Floats, the double evaluation (modelled assumptions E1-E3 of Model/C18.v: IEEE rounding of + * /, NumPy's
+   reduceat/pairwise summation order, the platform's 10.**k handed in as P; the correspondence checks the model
+   BIT FOR BIT).  (a) the double computed for a row is eval_row of that row's own decomposition — sign, digits,
+   exponents of the digits, number of fraction digits, exponent — and of P: no other row enters;
+   (b) read in exact arithmetic that decomposition is the exact-rational model's row, i.e. the Spec's value. *)
+Theorem C18_float_double_rowwise :
+  forall P xs, Forall (ftext_wf true) xs ->
+    str_to_float_double P true (map text_of xs) = all_some (map (fun x => eval_row P (pre_of true x)) xs).
+Proof. exact (fun P => float_double_rowwise P true). Qed.
+Print Assumptions C18_float_double_rowwise.
+Theorem C18_float_decomposition_exact :
+  forall x, ftext_wf true x ->
+    exact_of_pre (pre_of true x) = (f_neg x, f_N x, len (ff x), f_ev x)
+    /\ float_text_value (text_of x) = Some (f_neg x, f_N x, f_ev x - len (ff x)).
+Proof. exact (fun x H => conj (exact_of_pre_of true x H) (spec_value true x H)). Qed.
+Print Assumptions C18_float_decomposition_exact.
+(* (c) PARTIAL exactness: when the digit string read as an integer is below 2^53 (in particular: at most 15
+   significant digits), the text is at most 23 characters before the exponent, and P is exact on 0..22, the whole
+   integer mantissa step — every digit*power product and NumPy's pairwise row sum — is exact ... *)
+Theorem C18_float_mantissa_exact_partial :
+  forall P x, ftext_wf true x -> f_N x < 2 ^ 53 -> len (mant_of x) <= 23 ->
+    (forall p, 0 <= p <= 22 -> P p = Some (10 ^ p, 0)) ->
+    dbl_base P (map dig (dec_prepare true (mant_of x))) (row_powers (len (mant_of x), dot_cols (mant_of x)))
+    = Some (f_N x, 0).
+Proof. exact (fun P => float_mantissa_exact P true). Qed.
+Print Assumptions C18_float_mantissa_exact_partial.
+(* ... and a text without exponent is then converted by ONE correctly rounded division N / 10^frac. *)
+Theorem C18_float_short_decimal_partial :
+  forall P x, ftext_wf true x -> fe x = None -> f_N x < 2 ^ 53 -> len (mant_of x) <= 23 ->
+    (forall p, 0 <= p <= 22 -> P p = Some (10 ^ p, 0)) ->
+    eval_row P (pre_of true x)
+    = Some (f_neg x, ddiv (if f_neg x then (- f_N x, 0) else (f_N x, 0)) (10 ^ len (ff x), 0)).
+Proof. exact (fun P => float_short_decimal P true). Qed.
+Print Assumptions C18_float_short_decimal_partial.
+
+(* Links "the implementation agrees with the model on this run => the property holds on this run", one per case
+   class of the correspondence (Corr/C18.v), for well-formed input rows.  They hold for the repaired variants the
+   Corr switches select now (eq_refl below breaks if a switch is flipped back). *)
+Theorem C18_link_format_ints :
+  forall rows runs pw route idx out,
+    Forall (fun r => exists n, r = [n] /\ - 2 ^ 63 <= n < 2 ^ 63) rows -> Forall (fun i => 0 <= i < len rows) idx ->
+    run_model {| k_kind := 0; k_rows := rows; k_runs := runs; k_pow := pw |} (route, idx, out) = true ->
+    run_spec {| k_kind := 0; k_rows := rows; k_runs := runs; k_pow := pw |} (route, idx, out) = true.
+Proof. exact (fun rows runs pw route idx out => link_format_ints rows runs pw route idx out eq_refl). Qed.
+Print Assumptions C18_link_format_ints.
+Theorem C18_link_parse_ints :
+  forall rows runs pw route idx out,
+    Forall (fun t => exists v, text_value t = Some v /\ - 2 ^ 63 <= v < 2 ^ 63) rows -> Forall (fun i => 0 <= i < len rows) idx ->
+    run_model {| k_kind := 1; k_rows := rows; k_runs := runs; k_pow := pw |} (route, idx, out) = true ->
+    run_spec {| k_kind := 1; k_rows := rows; k_runs := runs; k_pow := pw |} (route, idx, out) = true.
+Proof. exact link_parse_ints. Qed.
+Print Assumptions C18_link_parse_ints.
+Theorem C18_link_format_lists :
+  forall rows runs pw route idx out,
+    Forall (Forall (fun n => - 2 ^ 63 <= n < 2 ^ 63)) rows -> Forall (fun i => 0 <= i < len rows) idx ->
+    run_model {| k_kind := 2; k_rows := rows; k_runs := runs; k_pow := pw |} (route, idx, out) = true ->
+    run_spec {| k_kind := 2; k_rows := rows; k_runs := runs; k_pow := pw |} (route, idx, out) = true.
+Proof. exact (fun rows runs pw route idx out => link_format_lists rows runs pw route idx out eq_refl). Qed.
+Print Assumptions C18_link_format_lists.
+Theorem C18_link_parse_lists :
+  forall rows runs pw route idx out,
+    Forall (fun row => exists ts vs, row = intercalate [44] ts
+                                   /\ Forall2 (fun t v => text_value t = Some v /\ - 2 ^ 63 <= v < 2 ^ 63) ts vs) rows ->
+    Forall (fun i => 0 <= i < len rows) idx ->
+    run_model {| k_kind := 3; k_rows := rows; k_runs := runs; k_pow := pw |} (route, idx, out) = true ->
+    run_spec {| k_kind := 3; k_rows := rows; k_runs := runs; k_pow := pw |} (route, idx, out) = true.
+Proof. exact (fun rows runs pw route idx out => link_parse_lists rows runs pw route idx out eq_refl). Qed.
+Print Assumptions C18_link_parse_lists.
+Theorem C18_link_parse_floats :
+  forall rows runs pw route idx out,
+    Forall (fun t => exists x, t = text_of x /\ ftext_wf true x) rows -> Forall (fun i => 0 <= i < len rows) idx ->
+    run_model {| k_kind := 4; k_rows := rows; k_runs := runs; k_pow := pw |} (route, idx, out) = true ->
+    run_spec {| k_kind := 4; k_rows := rows; k_runs := runs; k_pow := pw |} (route, idx, out) = true.
+Proof. exact (fun rows runs pw route idx out => link_parse_floats rows runs pw route idx out eq_refl). Qed.
+Print Assumptions C18_link_parse_floats.
+Theorem C18_link_digit_matrix :
+  forall data ivrows runs pw route idx out,
+    Forall (fun r => iv_ok data (iv_of r)) ivrows -> Forall (fun i => 1 <= i < 1 + len ivrows) idx ->
+    run_model {| k_kind := 6; k_rows := data :: ivrows; k_runs := runs; k_pow := pw |} (route, idx, out) = true ->
+    run_spec {| k_kind := 6; k_rows := data :: ivrows; k_runs := runs; k_pow := pw |} (route, idx, out) = true.
+Proof. exact link_digit_matrix. Qed.
+Print Assumptions C18_link_digit_matrix.
+
 (* Source tie: the arithmetic regenerated on this run from /repo/bionumpy/io/strops.py and io/file_buffers.py
    (Gen/C18.v, written by translate/run.py through translate/gen_c18.py) is the arithmetic the model functions are
    written in (the named kernels m_* of Model/C18.v, width_exact, pow10_u64): the magnitude, row length and digit
@@ -215,4 +326,18 @@ Proof.
   repeat constructor; apply W; try reflexivity; try discriminate; try (left; reflexivity); try (right; reflexivity);
     try exact I.
   all: exists (-3); split; [reflexivity|]; unfold int64; split; [vm_compute; discriminate|reflexivity].
+Qed.
+(* phase 3: a 1-digit field at buffer offset 0 next to a 19-digit field (window index -18: NumPy wraps around, the
+   cells are fill cells); a list column with an empty list; a short decimal through the double model with exact P *)
+Example C18_phase3_nonvacuous :
+  let data := unhex "3509313030303030303030303030303030303030330a"%string in      (* "5\t1000000000000000003\n" *)
+  Forall (iv_ok data) [(0, 1); (2, 21)]
+  /\ digit_matrix data [(0, 1); (2, 21)] 48
+     = [unhex "30303030303030303030303030303030303035"; unhex "31303030303030303030303030303030303033"]%string
+  /\ str_to_int_buffer data [(0, 1); (2, 21)] = Some [5; 1000000000000000003]
+  /\ parse_split_ints 44 [unhex "312c32"; []; unhex "2d33"]%string = Some [[1; 2]; []; [-3]]
+  /\ eval_row (fun p => Some (10 ^ p, 0)) (pre_of true {| fs := [45]; fi := [49]; fd := true; ff := [50; 53]; fe := None |})
+     = Some (true, (-5, -2)).                                                          (* "-1.25" = -5 * 2^-2 *)
+Proof.
+  cbn zeta. split; [repeat constructor; cbn; lia|]. vm_compute. repeat split; reflexivity.
 Qed.
